@@ -300,3 +300,57 @@ CHECKS = {
         "technique": "Coq theorems (induction on key trees, lia on slice arithmetic) + extracted-model/implementation differential correspondence",
     },
 }
+
+
+# ---- texts after the deepening round of 2026-10-01 (override the first-build texts above) --------------------------------------------
+def _splice(pid, old, new, field="text"):
+    t = CHECKS[pid][field]
+    assert t.count(old) == 1, (pid, old[:50])
+    CHECKS[pid][field] = t.replace(old, new)
+
+
+_splice("C03", "rejection is proved in its partial form (index within the batch rank) and the full form is refuted by a witness (finding D25). ",
+        "rejection is proved in its partial form (index within the batch rank) and the full form is refuted by a witness (finding D25); "
+        "the ELEMENT map `sel` (ints, slices through CPython's slice arithmetic, None, Ellipsis, index arrays and masks given their values, torch's two "
+        "stages) satisfies sel(bs++feat, idx, r++f) = sel(bs, idx, r)++f for all ranks and is defined exactly on torch's result shape; for td[idx] = v "
+        "the expand/reset target equals torch's shape, the written positions are exactly the image of sel times all feature positions (write frame), "
+        "keys absent from the value are untouched, a created entry indexed with the same index has the value's shape (acceptance: partial theorem + D30 "
+        "refutation); the names of the result (_get_names_idx) have one entry per result dim, are torch's placement rule applied to labelled slots and "
+        "follow sel; __getitem__ hands every leaf the user's index with only the Ellipsis expanded, so the view/copy class is torch's. ")
+_splice("C03", "Which elements tensor[idx] selects is torch's (trusted); Spec/C03_TorchIndex.v is my statement of torch's shape rule, validated against torch in every run.",
+        "Spec/C03_TorchIndex.v (shape rule) and Spec/C03_TorchSel.v (element map, write-accept rule, view rule) are my statements of torch's behaviour, "
+        "re-validated per element against real torch in every run; the value contents of writes, writes with duplicate positions and "
+        "_SubTensorDict._sub_index composition stay differential-only.", "note")
+CHECKS["C03"]["technique"] = ("Coq theorems (induction on index tuples; invariant linking the code's two passes to torch's adjacent-subspace rule; element-map "
+                              "frame lemmas) + per-element validation of the torch spec + differential correspondence")
+
+_splice("C17", "nested blocks pop their inverses in LIFO order; the registry",
+        "at the ELEMENT level, for transpose / permute / view / flatten / squeeze / unsqueeze of every rank and spelling the reverse restores the shape and "
+        "sends every valid multi-index back to itself (unflatten likewise, see the findings file for the length-1 size case); lock_/unlock_ used as "
+        "context managers leave flag and queue unchanged for ANY nesting of blocks, sequences and raises, on normal and exceptional exit (refuted "
+        "without the repair of the exception path); the _last_op / _last_op_queue protocol restores every queue and pops LIFO at arbitrary depth over "
+        "several objects (re-entry, yielded-of-yielded, dead originals); the registry")
+_splice("C17", "the value-level flatten_keys/unflatten_keys round trip is C04's theorem.",
+        "the value-level flatten_keys/unflatten_keys round trip is C04's theorem (differential only here); write-back is modelled on flat key sets. "
+        "Known findings in findings.d/C17.json.", "note")
+CHECKS["C17"]["technique"] = ("Coq theorems (element-map round trips by ravel/unravel arithmetic, permutations, protocol machine by induction over block programs) "
+                              "+ ast-translated registry table + recorded-inverse-call correspondence")
+
+CHECKS["C19"]["text"] = (
+    "Proof (Coq): at the element level, with functorch's batching rule as the single trusted definition `lift` (a function on batched values runs on every "
+    "sample): for EVERY per-sample function f, every rank, in_dim and out_dim, the tensordict bookkeeping (_add_batch_dim, _maybe_remove_batch_dim / "
+    "_remove_batch_dim in the code's order of checks) makes vmap(f) accept the call and return batch size, names, schema and EVERY element equal to "
+    "stack([f(slice_j)], out_dim); nested vmap of depth 2 likewise for every (in1, out1, in2, out2); the argument / output plumbing of "
+    "functional_modules.py (_process_batched_inputs, _create_batched_inputs, out_dims checks, _unwrap_batched) is transcribed with its refusal reasons: an int "
+    "in_dim batches exactly along that dim, None passes a shallow copy over the same leaves, inconsistent sizes are always refused; the memoisation key "
+    "(in_dim, vmap_level) of the batched views of locked tensordicts is injective and every call of every history of in-place writes, rebinding writes, "
+    "lock cycles reads the current content (refuted for the unrepaired rebinding write); lazy stacks: identity-like op classes on the hidden-stack-dim "
+    "view are right for every out position, the rebuilding class is refuted (finding D33) and proved right with the suggested repair. Partial: which ops "
+    "functorch can batch, and module forward, are runtime behaviour — decided per run by the vmap-vs-loop differential (identity on all shapes rank 1..3 x "
+    "all in/out dims x regular/lazy/named, random programs, in_dims=None, nested depth 2, functional module calls with batched parameters, locked inputs "
+    "reused across calls with in-place writes in between).")
+CHECKS["C19"]["note"] = COMMON_NOTE + ("functorch batching rules are trusted through `lift`; a refusal of functorch to batch an op (torch._foreach_* has no batching "
+                                       "rule in this torch) is counted, not judged; dict pytrees, kwargs, chunk_size and tensorclass outputs are not modelled. "
+                                       "Known findings in known_findings.json (D33, D33b) and findings.d/C19.json.")
+CHECKS["C19"]["technique"] = ("Coq theorems (element-level vmap = stack by list insert/remove algebra over an abstract per-sample function; plumbing decision procedure; "
+                              "memo-key invariant over histories) + extracted-model correspondence + vmap-vs-loop differential run")
